@@ -254,7 +254,7 @@ def scenarios(tier: str) -> List[Any]:
             for m in PING_MSGS:
                 out.append(("ping", e, c, d, (m,), 2, "all", "two"))
             for ms in itertools.product(R4, repeat=3):
-                out.append(("triple", e, c, d, ms, 2, "mid", "p"))
+                out.append(("triple", e, c, d, ms, 2, "mid", "none"))
         for e in ENGINES:
             for c in CARRIERS:
                 for d in (False, True):
